@@ -187,6 +187,11 @@ func tail(s string, n int) string {
 
 func worker(s Spec, bound int, deadline time.Time) {
 	var out workerOut
+	// golib code may print (default panic handler): keep the result channel clean
+	resultOut := os.Stdout
+	if devnull, err := os.OpenFile(os.DevNull, os.O_WRONLY, 0); err == nil {
+		os.Stdout = devnull
+	}
 	func() {
 		defer func() {
 			if p := recover(); p != nil {
@@ -194,7 +199,7 @@ func worker(s Spec, bound int, deadline time.Time) {
 			}
 		}()
 		out.Result = Explore(s.Sc, bound, deadline)
-		if v := out.Result.Violation; v != nil {
+		if v := out.Result.Violation; v != nil && v.Probe != "afterall" {
 			// determinism discipline: the recorded schedule must fail the same way 5 times
 			for i := 0; i < 5; i++ {
 				f, h, err := Replay(s.Sc, v.Schedule, v.Probe)
@@ -214,7 +219,7 @@ func worker(s Spec, bound int, deadline time.Time) {
 		// keep JSON small and stable
 	}
 	data, _ := json.Marshal(out)
-	os.Stdout.Write(data)
+	resultOut.Write(data)
 }
 
 func sameHist(a, b []*core.OpRec) bool {
